@@ -2,6 +2,8 @@ import PsaDhcp.Model.Clients
 import PsaDhcp.Model.Ipdb
 import PsaDhcp.Spec.Table
 import PsaDhcp.Proofs.Ipdb
+import PsaDhcp.Model.Observed
+import PsaDhcp.Proofs.Observed
 /-
 C11 — The lease database is a table of exclusive, expiring bindings.
 Only property theorems and non-vacuity examples live here; helper lemmas are in `Proofs/Ipdb.lean`.
@@ -105,6 +107,24 @@ theorem find_fails_only_if_exhausted (db : IPDB Table) (now : Int) (sugg : Optio
     ∀ a, db.dynFrom ≤ a → a ≤ db.dynTo →
       ∃ i, (db.s.liveIp (orc i).now a).isSome = true ∨ IPDB.validUip a = false ∨ (orc i).free = false :=
   Proofs.Ipdb.find_fails_only_if_exhausted db now sugg d perm orc h hperm hr hnc hres
+
+/-- The bridge between what the correspondence check replays and what the theorems quantify over:
+an observation the driver accepts (every observed probe explained, search not cancelled) is a run
+of the real candidate loop — there is a per-iteration oracle, never cancelled, under which
+`findLoop` over the concrete store yields exactly the same store and result. -/
+theorem observed_search_is_a_run (dynFrom : Nat) (chaddr : Bytes) (t0 : Int) (cands : List Nat) (obs : List ObsProbe)
+    (tl : Int) (s s' : Clients) (res : Option Nat) (tl' : Int)
+    (h : findLoopObs dynFrom chaddr false t0 cands obs tl s = .ok (s', res, [], tl')) :
+    ∃ orc : Nat → IPDB.Iter, (∀ i, (orc i).cancelled = false) ∧
+      IPDB.findLoop clientsStore dynFrom cands orc 0 s = (s', res) :=
+  Proofs.Observed.observed_search_is_a_run dynFrom chaddr t0 cands obs tl s s' res tl' h
+
+/-- … and the whole observed `FindIP` is `IPDB.findIP` for some candidate order and oracle. -/
+theorem observed_find_is_findIP (db db' : IPDB Clients) (now : Int) (sugg : Option Ip4) (d : Duid) (chaddr : Bytes)
+    (obs : List ObsProbe) (r : Except DbErr Nat) (tl : Int)
+    (h : findObs db now sugg d chaddr obs false = .ok (db', r, tl)) :
+    ∃ (perm : List Nat) (orc : Nat → IPDB.Iter), db.findIP clientsStore now sugg d perm orc = (db', r) :=
+  Proofs.Observed.observed_find_is_findIP db db' now sugg d chaddr obs r tl h
 
 /-! Non-vacuity: a concrete run with an expiry, a replacement and a permanent entry. -/
 def exOps : List (Int × COp) :=
